@@ -18,6 +18,9 @@ with tempfile.TemporaryDirectory() as td:
            "--continue-on-collection-errors", f"--junitxml={xml}"]
     if os.environ.get("VERIF_BASELINE_FAILFAST"):
         cmd.append("-x")           # mutation runs: the first failing test settles it
+        for t in base.get("always_fail", []):      # ... of those that pass on the unchanged tree
+            mod, name = t.split("::")
+            cmd += ["--deselect", mod.replace(".", "/") + ".py::" + name]
     try:
         proc = subprocess.run(cmd, cwd=repo, env=env, stdout=subprocess.PIPE, stderr=subprocess.STDOUT, text=True,
                               timeout=float(os.environ.get("VERIF_BASELINE_TIMEOUT", "2400")), start_new_session=True)
